@@ -5,6 +5,7 @@
 -/
 import Astm.Model.Fields
 import Astm.Lemmas.ReadBack
+import Astm.Lemmas.ReadBackRecord
 import Astm.Generated.Schemas
 import Astm.Contract.Schemas
 
@@ -162,6 +163,20 @@ theorem stored_value_reads_back (sp : Scalar) (w : Field) (v : Str) (h : setScal
 /-- `int(str(n)) = n` for the model of `int()` : the canonical spelling stored by an integer field denotes
     the integer that was accepted -/
 theorem integer_reads_back (n : Int) : pyInt (intStr n) = some n := pyInt_intStr n
+
+/-- A record reads back to itself: for every schema all of whose scalar declarations are `scalarWF` (no JSON list
+    field; an integer default on an integer / matching constant field; a `now` default on a timestamp field) and every
+    valid clock reading, building a record from the `to_astm()` list of a record gives the same dictionary — every
+    stored value, every default that was filled in, every component and every occurrence is accepted again unchanged. -/
+theorem record_reads_back (S : RecordSpec) (now : Str) (r : Record) (d : Dict) (hwf : recordWF S = true) (hnow : NowOK now)
+    (h : wrap S now r = .ok d) : wrap S now (asRecord (toAstmOf d)) = .ok d :=
+  wrap_reads_back S now r d hwf hnow h
+
+/-- ... and every record schema shipped with the package (generic and per instrument, regenerated on every run)
+    satisfies that premise, except the Pentra comment record with its JSON list field -/
+theorem shipped_schemas_read_back : ∀ M ∈ Astm.Gen.schemas, ∀ S ∈ M.records,
+    recordWF S = true ∨ (M.name = "horiba_pentra_xlr" ∧ S.letter = "C") := by
+  decide +kernel
 
 /-- number of fields / components: more values than declared raise an error, nothing is built -/
 theorem too_many_values_error {α : Type} (specs : List α) (items : List Field) (h : items.length > specs.length) :
